@@ -21,6 +21,20 @@ func (g *commonGen) template(w *World, name string, b int) []Step {
 	switch name {
 	case "login_ok":
 		return []Step{{Kind: "login", B: b, A: a, Sec: pw(a), RM: c.hasModule("remember") && g.r.Bool()}}
+	case "pw_near_miss":
+		// strings that differ from the right password at its very end (the
+		// longest password of the deployment is the interesting one)
+		for i := range w.Accts {
+			if len(w.KB.Password[i]) > len(w.KB.Password[a]) {
+				a = i
+			}
+		}
+		muts := []string{"suffix:x", "suffix:é", "suffix: ", "chop:1", "suffix:\x00", "upper"}
+		out := []Step{{Kind: "drop_session", B: b}}
+		for i := 0; i < 1+g.r.Intn(2); i++ {
+			out = append(out, Step{Kind: "login", B: b, A: a, Sec: &SecretRef{Kind: "password", A: a, Mut: muts[g.r.Intn(len(muts))]}})
+		}
+		return append(out, Step{Kind: "login", B: b, A: a, Sec: pw(a)})
 	case "fail_burst":
 		// a burst of failures on one path, gaps on either side of the window
 		n := 1 + g.r.Intn(c.LockAfter+2)
@@ -78,7 +92,7 @@ func (g *commonGen) template(w *World, name string, b int) []Step {
 		if g.r.Chance(1, 4) {
 			out = append(out, Step{Kind: "recover_start", B: b, A: a}) // supersedes the first
 		}
-		st := Step{Kind: "recover_end", B: b, A: a, Sec: g.secretFor(w, "recover_end", a, b), Sec2: g.newPassword()}
+		st := Step{Kind: "recover_end", B: b, A: a, Sec: g.secretFor(w, "recover_end", a, b), Sec2: g.newPasswordFor(a)}
 		if g.r.Chance(1, 3) {
 			st.Gap = durationsAround(g.r, c.RecoverDur)
 			if st.Gap < 0 {
@@ -96,7 +110,7 @@ func (g *commonGen) template(w *World, name string, b int) []Step {
 			out = append(out, Step{Kind: "login", B: b, A: a, Sec: &SecretRef{Kind: "oldpassword", A: a, Idx: -1}})
 		}
 		if g.r.Chance(1, 3) { // use the same link again
-			out = append(out, Step{Kind: "recover_end", B: b, A: a, Sec: &SecretRef{Kind: "recover", A: a, Idx: -1}, Sec2: g.newPassword()})
+			out = append(out, Step{Kind: "recover_end", B: b, A: a, Sec: &SecretRef{Kind: "recover", A: a, Idx: -1}, Sec2: g.newPasswordFor(a)})
 		}
 		return out
 	case "register_flow":
@@ -152,15 +166,15 @@ func (g *commonGen) template(w *World, name string, b int) []Step {
 		ob := (b + 1) % len(w.Browsers)
 		out := []Step{{Kind: "login", B: b, A: a, Sec: pw(a), RM: true}, {Kind: "login", B: ob, A: a, Sec: pw(a), RM: true}}
 		if g.r.Bool() && c.hasModule("recover") {
-			out = append(out, Step{Kind: "recover_start", B: b, A: a}, Step{Kind: "recover_end", B: b, A: a, Sec: &SecretRef{Kind: "recover", A: a, Idx: -1}, Sec2: g.newPassword()})
+			out = append(out, Step{Kind: "recover_start", B: b, A: a}, Step{Kind: "recover_end", B: b, A: a, Sec: &SecretRef{Kind: "recover", A: a, Idx: -1}, Sec2: g.newPasswordFor(a)})
 		} else {
-			out = append(out, Step{Kind: "op_update_password", B: b, A: a, Sec: g.newPassword()})
+			out = append(out, Step{Kind: "op_update_password", B: b, A: a, Sec: g.newPasswordFor(a)})
 		}
 		out = append(out, Step{Kind: "drop_session", B: ob}, g.fill(w, "probe", ob), Step{Kind: "drop_session", B: b}, g.fill(w, "probe", b),
 			Step{Kind: "login", B: ob, A: a, Sec: &SecretRef{Kind: "oldpassword", A: a, Idx: -1}}, Step{Kind: "login", B: ob, A: a, Sec: pw(a)})
 		return out
 	case "op_reset":
-		return []Step{{Kind: "op_update_password", B: b, A: a, Sec: g.newPassword()}, {Kind: "login", B: b, A: a, Sec: &SecretRef{Kind: "oldpassword", A: a, Idx: -1}},
+		return []Step{{Kind: "op_update_password", B: b, A: a, Sec: g.newPasswordFor(a)}, {Kind: "login", B: b, A: a, Sec: &SecretRef{Kind: "oldpassword", A: a, Idx: -1}},
 			{Kind: "login", B: b, A: a, Sec: pw(a)}}
 	case "confirm_flow":
 		out := []Step{{Kind: "op_start_confirm", B: b, A: a}}
@@ -493,7 +507,7 @@ func (g *commonGen) template(w *World, name string, b int) []Step {
 			out = append(out, Step{Kind: "login", B: b, A: a, Sec: pw(a)})
 		}
 		if g.r.Bool() {
-			out = append(out, Step{Kind: "app_session_put", B: b, Str: map[string]string{"key": []string{"app_theme", "app_cart", "app_other"}[g.r.Intn(3)], "val": "kept"}})
+			out = append(out, Step{Kind: "app_session_put", B: b, Str: map[string]string{"key": appKeys[g.r.Intn(len(appKeys))], "val": "kept"}})
 		}
 		for i := 0; i < 1+g.r.Intn(3); i++ {
 			gap := durationsAround(g.r, c.ExpireAfter)
@@ -551,7 +565,7 @@ func (g *commonGen) template(w *World, name string, b int) []Step {
 				Step{Kind: "app_session_put", B: b, Str: map[string]string{"key": "app_other", "val": "x"}})
 		}
 		if g.r.Chance(1, 5) {
-			m := []string{"GET", "POST", "DELETE"}[g.r.Intn(3)]
+			m := logoutMethods[g.r.Intn(len(logoutMethods))]
 			out = append(out, Step{Kind: "logout", B: b, Str: map[string]string{"method": m}})
 		}
 		out = append(out, Step{Kind: "logout", B: b}, Step{Kind: "probe", B: b, Str: map[string]string{"path": "/probe/mw/" + []string{"0", "1"}[g.r.Intn(2)] + "/0/0/after"}})
@@ -589,6 +603,108 @@ func (g *commonGen) template(w *World, name string, b int) []Step {
 			g.redir(&st)
 			out = append(out, st)
 		}
+		return out
+	case "totp_replay":
+		// an accepted TOTP code is presented again within its period: verbatim,
+		// wrapped in white space, or after it proved the secret at enrolment
+		t := -1
+		for i := range w.Accts {
+			if w.KB.TOTPSecret[i] != "" && (t < 0 || g.r.Bool()) {
+				t = i
+			}
+		}
+		again := &SecretRef{Kind: "totp", A: a}
+		if g.r.Bool() {
+			again.Mut = []string{"suffix: ", "prefix: ", "suffix:\t", "suffix:\n"}[g.r.Intn(4)]
+		}
+		if t < 0 || g.r.Chance(1, 3) {
+			for i := range w.Accts {
+				if w.KB.TOTPSecret[i] == "" && w.KB.SMSNumber[i] == "" {
+					a = i
+				}
+			}
+			again.A = a
+			return []Step{{Kind: "drop_session", B: b}, {Kind: "login", B: b, A: a, Sec: pw(a)}, {Kind: "totp_setup", B: b, A: a},
+				{Kind: "totp_confirm", B: b, A: a, Sec: &SecretRef{Kind: "totp_pending", A: b}}, {Kind: "drop_session", B: b},
+				{Kind: "login", B: b, A: a, Sec: pw(a)}, {Kind: "totp_validate", B: b, A: a, Sec: again}}
+		}
+		a = t
+		again.A = a
+		return []Step{{Kind: "drop_session", B: b}, {Kind: "login", B: b, A: a, Sec: pw(a)}, {Kind: "totp_validate", B: b, A: a, Sec: &SecretRef{Kind: "totp", A: a}},
+			{Kind: "drop_session", B: b}, {Kind: "login", B: b, A: a, Sec: pw(a)}, {Kind: "totp_validate", B: b, A: a, Sec: again}}
+	case "second_factor_enrol":
+		// an account that already has one factor (and so recovery codes) logs in
+		// fully and enrols the other kind, proving it with the right code or
+		// with one of its recovery codes
+		t := -1
+		for i := range w.Accts {
+			if (w.KB.TOTPSecret[i] != "") != (w.KB.SMSNumber[i] != "") && (t < 0 || g.r.Bool()) {
+				t = i
+			}
+		}
+		if t < 0 {
+			return nil
+		}
+		a = t
+		out := []Step{{Kind: "drop_session", B: b}, {Kind: "login", B: b, A: a, Sec: pw(a)}}
+		have, want := "totp", "sms"
+		if w.KB.TOTPSecret[a] == "" {
+			have, want = "sms", "totp"
+		}
+		if have == "totp" {
+			out = append(out, Step{Kind: "totp_validate", B: b, A: a, Sec: &SecretRef{Kind: "totp", A: a}})
+		} else {
+			out = append(out, Step{Kind: "sms_validate", B: b, A: a, Sec: &SecretRef{Kind: "sms", A: -1, Idx: -1}})
+		}
+		if c.EmailAuth2FA {
+			out = append(out, Step{Kind: "everify_start", B: b, A: a, Str: map[string]string{"kind": want}},
+				Step{Kind: "everify_end", B: b, A: a, Sec: &SecretRef{Kind: "everify", A: a, Idx: -1}, Str: map[string]string{"kind": want}})
+		}
+		proof := &SecretRef{Kind: "recovery", A: a, Idx: -1 - g.r.Intn(3)}
+		if want == "sms" {
+			out = append(out, Step{Kind: "sms_setup", B: b, A: a, Str: map[string]string{"number": acctPhone(g.otherAcct(w, a))}})
+			if g.r.Chance(1, 3) {
+				proof = &SecretRef{Kind: "sms", A: -1, Idx: -1}
+			}
+			out = append(out, Step{Kind: "sms_confirm", B: b, A: a, Sec: proof})
+		} else {
+			out = append(out, Step{Kind: "totp_setup", B: b, A: a})
+			if g.r.Chance(1, 3) {
+				proof = &SecretRef{Kind: "totp_pending", A: b}
+			}
+			out = append(out, Step{Kind: "totp_confirm", B: b, A: a, Sec: proof})
+		}
+		return out
+	case "twofa_then_other_password":
+		// a session that passed the second factor of one account presents only
+		// the password of another account that has a second factor, then
+		// tries that account's 2FA settings
+		var with []int
+		for i := range w.Accts {
+			if w.KB.TOTPSecret[i] != "" || w.KB.SMSNumber[i] != "" {
+				with = append(with, i)
+			}
+		}
+		if len(with) < 2 {
+			return nil
+		}
+		p := g.r.Perm(len(with))
+		first, second := with[p[0]], with[p[1]]
+		out := []Step{{Kind: "drop_session", B: b}, {Kind: "login", B: b, A: first, Sec: pw(first)}}
+		if w.KB.TOTPSecret[first] != "" {
+			out = append(out, Step{Kind: "totp_validate", B: b, A: first, Sec: &SecretRef{Kind: "totp", A: first}})
+		} else {
+			out = append(out, Step{Kind: "sms_validate", B: b, A: first, Sec: &SecretRef{Kind: "sms", A: -1, Idx: -1}})
+		}
+		out = append(out, Step{Kind: "login", B: b, A: second, Sec: pw(second)})
+		for _, k := range []string{"recovery_regen", "totp_setup", "sms_setup", "totp_remove", "sms_remove"} {
+			if g.r.Chance(1, 2) {
+				st := g.fill(w, k, b)
+				st.A = second
+				out = append(out, st)
+			}
+		}
+		out = append(out, g.fill(w, "probe", b))
 		return out
 	case "twofa_login":
 		// primary credential then the right second factor
